@@ -23,6 +23,7 @@ from mapproxy.source import SourceError
 from mapproxy.client.http import HTTPClientError
 from mapproxy.source import InvalidSourceQuery
 from mapproxy.layer import BlankImage, map_extent_from_grid, CacheMapLayer, MapLayer
+from mapproxy.grid import get_resolution
 from mapproxy.util.py import reraise_exception
 
 import logging
@@ -65,7 +66,11 @@ class TiledSource(MapLayer):
         if self.coverage and not self.coverage.intersects(query.bbox, query.srs):
             raise BlankImage()
 
-        _bbox, grid, tiles = self.grid.get_affected_tiles(query.bbox, query.size)
+        # the query is a tile of the cache grid: take the level with the nearest resolution, not the
+        # level TileGrid.closest_level would choose for rendering (stretch_factor tolerance)
+        res = get_resolution(query.bbox, query.size)
+        level = min(range(self.grid.levels), key=lambda lvl: abs(self.grid.resolution(lvl) - res))
+        _bbox, grid, tiles = self.grid.get_affected_level_tiles(query.bbox, level)
 
         if grid != (1, 1):
             raise InvalidSourceQuery('BBOX does not align to tile')
